@@ -28,14 +28,24 @@ ACTIONS = ["TopOp", "CycleStart", "AskCB", "PulseCB"]
 NOGEN = ["-noGenerateSpecTE"]
 
 
-def impl_cfg(name, N, maxT, nested, nestkinds=ALLNEST, topkinds=ALLTOP, mut="", emit=False, invs=INVS, spec="Spec", props=None):
+def write_cfg(name, text):
+    """configurations are generated; several threads may want the same one: write only if different, atomically"""
     p = os.path.join(vlib.SPEC, FAM, name)
-    with open(p, "w") as f:
-        f.write("SPECIFICATION %s\nCONSTANTS\n  N = %d\n  MaxT = %d\n  NEVER = 9\n  MaxNested = %d\n  NestedKinds = %s\n  TopKinds = %s\n  Mut = \"%s\"\n  RECORD = FALSE\n  EMIT = %s\n" %
-                (spec, N, maxT, nested, nestkinds, topkinds, mut, "TRUE" if emit else "FALSE"))
-        if invs: f.write("INVARIANTS " + " ".join(invs) + "\n")
-        if props: f.write("PROPERTIES " + " ".join(props) + "\n")
+    try:
+        if open(p).read() == text: return name
+    except OSError: pass
+    tmp = "%s.%d.%d.tmp" % (p, os.getpid(), threading.get_ident())
+    with open(tmp, "w") as f: f.write(text)
+    os.replace(tmp, p)
     return name
+
+
+def impl_cfg(name, N, maxT, nested, nestkinds=ALLNEST, topkinds=ALLTOP, mut="", emit=False, invs=INVS, spec="Spec", props=None):
+    t = ("SPECIFICATION %s\nCONSTANTS\n  N = %d\n  MaxT = %d\n  NEVER = 9\n  MaxNested = %d\n  NestedKinds = %s\n  TopKinds = %s\n  Mut = \"%s\"\n  RECORD = FALSE\n  EMIT = %s\n" %
+         (spec, N, maxT, nested, nestkinds, topkinds, mut, "TRUE" if emit else "FALSE"))
+    if invs: t += "INVARIANTS " + " ".join(invs) + "\n"
+    if props: t += "PROPERTIES " + " ".join(props) + "\n"
+    return write_cfg(name, t)
 
 
 def canon(x):
@@ -183,15 +193,13 @@ def run(v, tier, seed):
         return r, vlib.read_ndjson(rep), [beh[len(beh) // 2][:6]], note, None, st["graph_edges"]
 
     # ---- 3: random histories, validated by TLC against PulseAbs -----------------------------------------------------------
-    def trace_cfg(name, N, maxT, never):
-        p = os.path.join(vlib.SPEC, FAM, name)
-        with open(p, "w") as f:
-            f.write("SPECIFICATION TraceSpec\nCONSTANTS\n  N = %d\n  MaxT = %d\n  NEVER = %d\n  NestedMax = 0\nINVARIANTS NotAccepted TypeOK Forest\nCONSTRAINT Track\nPOSTCONDITION Report\n" % (N, maxT, never))
-        return name
+    def trace_cfg(N, maxT, never):
+        return write_cfg("gen_Trace_%d_%d_%d.cfg" % (N, maxT, never),
+                         "SPECIFICATION TraceSpec\nCONSTANTS\n  N = %d\n  MaxT = %d\n  NEVER = %d\n  NestedMax = 0\nINVARIANTS NotAccepted TypeOK Forest\nCONSTRAINT Track\nPOSTCONDITION Report\n" % (N, maxT, never))
 
     def validate(tag, tr, N, maxT, never):
         """TLC checks that the recorded event log is a behaviour of PulseAbs; returns (accepted, first unexplained line, lines)"""
-        name = trace_cfg("gen_Trace_%s.cfg" % tag, N, maxT, never)
+        name = trace_cfg(N, maxT, never)
         nlines = sum(1 for _ in open(tr))
         if nlines == 0: return True, None, 0, 0.0
         r = B.tlc("PulseTrace", name, FAM, workers=1, timeout=3000, env={"TRACE": tr}, keep_out=True, extra=NOGEN, heap="2g")
@@ -224,9 +232,7 @@ def run(v, tier, seed):
         return r.violated == "Refines"
 
     def abs_mc(N, maxT, nestedmax, workers):
-        p = os.path.join(vlib.SPEC, FAM, "gen_Abs_MC.cfg")
-        with open(p, "w") as f:
-            f.write("SPECIFICATION Spec\nCONSTANTS\n  N = %d\n  MaxT = %d\n  NEVER = 9\n  NestedMax = %d\nINVARIANTS TypeOK Forest\nPROPERTIES SleepSafe\n" % (N, maxT, nestedmax))
+        write_cfg("gen_Abs_MC.cfg", "SPECIFICATION Spec\nCONSTANTS\n  N = %d\n  MaxT = %d\n  NEVER = 9\n  NestedMax = %d\nINVARIANTS TypeOK Forest\nPROPERTIES SleepSafe\n" % (N, maxT, nestedmax))
         r = B.tlc("PulseAbs", "gen_Abs_MC.cfg", FAM, coverage=True, workers=workers, timeout=3000, extra=NOGEN, heap="3g", keep_out=True)
         vlib.require_ok(r, "PulseAbs model check")
         # TLC prints the location of the innermost \E after the action's own: vlib's pattern does not expect that
